@@ -2,7 +2,7 @@
 import random, math, os, struct, tempfile, shutil
 
 RULES = {
-    'C17.B.reader': 'synthetic files, 1..4 sub-grids (nested and disjoint), 3..60 rows/cols, increments 30"..3600", positive and negative longitudes: every overview and sub-grid field reads back exactly (extents to 0.001", increments to 1e-6")',
+    'C17.B.reader': 'synthetic files, 1..5 sub-grids (nested up to three levels, disjoint, file order shuffled), 3..60 rows/cols, increments 30"..3600", positive and negative longitudes: every overview and sub-grid field reads back exactly (extents to 0.001", increments to 1e-6")',
     'C17.B.bilinear': 'fields = random polynomials exactly representable in float32 (linear / bilinear): queries on nodes, edges, interiors, outermost ring, just inside every boundary: bilinear = exact blend of the four enclosing nodes of the finest sub-grid (1e-6 + 1e-6 x cell change); outside every sub-grid four None and ntv2_2d raises; ntv2_2d signs',
     'C17.B.bicubic': 'bi-quadratic fields: bicubic reproduces them and returns node values at nodes (1e-6 + 1e-6 x cell change) for cells not in the outermost ring; the outermost ring is the known finding',
 }
@@ -103,6 +103,15 @@ def work(item):
                 else:                   # disjoint sibling further north
                     subs.append(dict(name='OTHER%d' % k, parent='NONE', s=s0 + (parent['rows'] + 5) * dl0 + k * 86400.0, e=e0, dlat=30.0 * rng.randint(1, 4), dlon=30.0 * rng.randint(1, 4),
                                      rows=rng.randint(3, 60), cols=rng.randint(3, 60), fields=poly_fields(rng, kind)))
+            if nsub >= 2 and rng.random() < 0.4:
+                # a grandchild nested in the first child (three levels over the same ground), and the file order shuffled:
+                # the finest sub-grid containing the point has to win whatever the order of the sub-grids in the file
+                ch = subs[1]
+                if ch['rows'] >= 5 and ch['cols'] >= 5:
+                    f2 = rng.choice([2, 3])
+                    subs.append(dict(name='GRAND', parent=ch['name'], s=ch['s'] + ch['dlat'], e=ch['e'] + ch['dlon'], dlat=ch['dlat'] / f2, dlon=ch['dlon'] / f2,
+                                     rows=rng.randint(3, 2 * f2) + 1, cols=rng.randint(3, 2 * f2) + 1, fields=poly_fields(rng, kind)))
+                rng.shuffle(subs)
             p = os.path.join(d, 'g%d.gsb' % fi)
             write_gsb(p, subs)
             g = nr.read_ntv2_file(p)
